@@ -211,7 +211,7 @@ def c09():
            constraints=["Depth8"], timeout=3000, name="C09-observers")
     behs, _ = tlc_behaviours("c09", fam="FamA", filt="FiltB", nobs=3, kinds="K3", obsops=3, faults=3,
                              resets=1, mode="complete", simulate=f"num={_n(chk, 600, 5000)}", workers=4, depth=60)
-    n = _run_traces(chk, behs, "tlc-simulated-faults")
+    n = _run_traces(chk, behs, "tlc-simulated-faults", post_reject_probe=True)
     rng = random.Random(chk.seed + 9)
     rb = [random_behaviour(rng, faults=0.3, resets=0.02, kinds=("rec", "hist", "rec"), obsops=0.05,
                            max_jobs=5, max_ops=5, max_m=4) for _ in range(_n(chk, 150, 1500))]
@@ -245,6 +245,17 @@ def c10():
     rb = [random_behaviour(rng, faults=0.05, resets=0.05, kinds=("rec", "histsub", "hist", "rec"), obsops=0.15,
                            max_jobs=4, max_ops=4, max_m=3) for _ in range(_n(chk, 150, 1500))]
     _run_traces(chk, rb, "random-large-observers", start_tid=n + 1, create_or_get_probe=True)
+    # observers constructed with subscribe=False receive nothing and are not subscribed
+    det = []
+    for i, b in enumerate(behs[: _n(chk, 150, 1000)]):
+        b2 = dict(b, kinds=["rec", "hist", "histsub", "rec"])
+        pre = [{"a": "Create", "o": 1}, {"a": "Create", "o": 2, "detached": True},
+               {"a": "Create", "o": 4, "detached": True}]
+        if i % 2:
+            pre = [{"a": "Create", "o": 3, "detached": True}, {"a": "Create", "o": 4}]
+        b2["hist"] = pre + [a for a in b["hist"] if a["a"] in ("D", "R", "Reset")]
+        det.append(b2)
+    n += _run_traces(chk, det, "detached-observers", start_tid=n + len(rb) + 1)
     # create_or_get_observer with a condition, on built-in (non-singleton) feature observers
     import itertools as _it
     from . import dsession as _ds
@@ -253,7 +264,7 @@ def c10():
              ("DurationObserver", ["jobs"]), ("DurationObserver", ["machines", "jobs"]),
              ("IsReadyObserver", ["jobs"]), ("IsReadyObserver", ["operations", "jobs"])]
     traces = []
-    base = n + len(rb) + 1
+    base = n + len(rb) + len(det) + 1
     for i in range(_n(chk, 60, 400)):
         b = behs[i % len(behs)]
         s = _ds.DSession(base + i, b["inst"], b["filt"], ())
